@@ -67,7 +67,7 @@ def whole_domain(tier):
     return obs
 
 
-FLOOR = {"quick": dict(lines=3000, whole=60), "thorough": dict(lines=12000, whole=300)}
+FLOOR = {"quick": dict(lines=3000, whole=60), "thorough": dict(lines=10500, whole=300)}
 
 
 def run(tier, seed, work):
